@@ -2,7 +2,7 @@
 From Coq Require Import List Bool ZArith.
 From C33 Require Import Lib.OMap.
 From C33 Require Import C10.Model C10.Spec C10.ProofsRefuted C10.Proofs.
-From C33 Require Import C10.Join C10.JoinSpec C10.ProofsJoinRefuted.
+From C33 Require Import C10.Join C10.JoinSpec C10.ProofsJoinRefuted C10.ProofsJoinThm.
 
 Theorem C10_table_refines_map_refuted : ~ C10_table_refines_map_full.
 Proof. exact refuted_full. Qed.
@@ -90,3 +90,21 @@ Print Assumptions C10_join_refuted_fk_change.
 Theorem C10_join_refuted_dangling : ~ jrefines (mkCl true false true true).
 Proof. exact jrefuted_dangling. Qed.
 Print Assumptions C10_join_refuted_dangling.
+
+(** inside the full guard (JoinSpec.save_safe at every join.Save: foreign key of a
+    stored left row unchanged, looked-up right row exists, no left Del in the
+    window in which its right row is added / changes status, no effective right
+    key a proper prefix of a stored foreign key; plus the plain-table guard for
+    the left and the right table and separator-free non-empty primary keys):
+    every call answers like the two maps, and after the final join.Save the
+    left and right stores hold exactly the maps' records and the join table's
+    index records are exactly those of the relational join *)
+Theorem C10_join_refines_map_partial : jrefines all_clauses.
+Proof. exact join_refines_map_partial. Qed.
+Print Assumptions C10_join_refines_map_partial.
+
+Theorem C10_join_every_save_partial :
+  forall ops1 ops2, jsafe (ops1 ++ JSave :: ops2) = true ->
+    jerrs_agree (ops1 ++ JSave :: nil) /\ jsaved_agrees ops1.
+Proof. exact join_every_save_partial. Qed.
+Print Assumptions C10_join_every_save_partial.
